@@ -80,6 +80,8 @@ uper_open_type_get_simple(const asn_codec_ctx_t *ctx,
 
 	ASN__STACK_OVERFLOW_CHECK(ctx);
 
+	if(!td->op->uper_decoder) ASN__DECODE_FAILED;
+
 	ASN_DEBUG("Getting open type %s...", td->name);
 
 	do {
@@ -154,6 +156,8 @@ uper_open_type_get_complex(const asn_codec_ctx_t *ctx,
 	ssize_t padding;
 
 	ASN__STACK_OVERFLOW_CHECK(ctx);
+
+	if(!td->op->uper_decoder) ASN__DECODE_FAILED;
 
 	ASN_DEBUG("Getting open type %s from %s", td->name,
 		asn_bit_data_string(pd));
